@@ -2,7 +2,7 @@
 From Coq Require Import String List NArith ZArith Bool.
 From LE Require Import Codec.Varint Codec.VarintProofs Codec.Reader Codec.Writer Codec.ReaderProofs
                        Codec.Schema Codec.SchemaProofs Codec.SchemaProofs2 Codec.CanonProofs Gen.Schemas
-                       Codec.Lisk32 Codec.Lisk32Conv Codec.Lisk32Poly Codec.Lisk32Proofs.
+                       Codec.Lisk32 Codec.Lisk32Conv Codec.Lisk32Poly Codec.Lisk32Proofs Codec.Str Codec.StrProofs.
 Import ListNotations.
 Local Open Scope N_scope.
 
@@ -168,6 +168,17 @@ Proof. exact bad_checksum_rejected. Qed.
 Theorem C08_lisk32_convert_8_5_8 : forall bs, List.length bs = 20%nat -> Forall (fun v => v < 256) bs ->
   List.length (convert 8 5 bs) = 32%nat /\ Forall (fun v => v < 32) (convert 8 5 bs) /\ convert 5 8 (convert 8 5 bs) = bs.
 Proof. exact convert_8_5_8. Qed.
+
+(* the string functions with which the model is evaluated in the correspondence (Codec/Str.v, undecided strings answered
+   "normal") satisfy the laws the theorems assume, so e.g. the round trip holds for that very instance *)
+Theorem C08_str_laws_of_evaluated_instance : str_laws (corr_strops true).
+Proof. exact corr_strops_laws. Qed.
+Theorem C08_all_generated_structs_roundtrip_evaluated_instance : forall nm s vs,
+  Schema.lookup schemas_env nm = Some s -> wt_struct (corr_strops true) schemas_env (Datatypes.S max_depth) s vs ->
+  (Z.of_nat (List.length (encode_struct (corr_strops true) schemas_env (Datatypes.S max_depth) s vs)) < 2^62)%Z ->
+  Decode (corr_strops true) schemas_env (Datatypes.S max_depth) s (encode_struct (corr_strops true) schemas_env (Datatypes.S max_depth) s vs)
+  = Ok (canon_struct (corr_strops true) schemas_env (Datatypes.S max_depth) s vs).
+Proof. intros. eapply C08_all_generated_structs_roundtrip; eauto. exact corr_strops_laws. Qed.
 
 (* ---- refutations kept honest ---- *)
 Definition id_strops : strops := {| utf8_valid := fun _ => true; is_nfc := fun _ => true; nfc_norm := fun s => s |}.
